@@ -382,6 +382,12 @@ func (vr *variableResolver) resolve(ctx *ExecutionContext) (*Value, error) {
 			return AsValue(nil), nil
 		}
 
+		if !current.CanInterface() {
+			// Reached through an unexported struct field: not accessible from
+			// templates (reflect would panic on Interface()).
+			return AsValue(nil), nil
+		}
+
 		// If current is a reflect.ValueOf(pongo2.Value), then unpack it
 		// Happens in function calls (as a return value) or by injecting
 		// into the execution context (e.g. in a for-loop)
